@@ -154,13 +154,21 @@ variable {n m : Nat} {nb : Nbrs} {rf : Nat} {r : IR.St}
 
 set_option maxHeartbeats 1000000 in
 include hnb hA hD hlenm in
-/-- a leaf better than `currentBest` (not the first) -/
-theorem dfs_leaf_accept (lv : List (Nat × Nat)) (s s1 : LS) (gh : Gh) (hI : MInv n m nb s)
+/-- a leaf better than `currentBest` (not the first), ghost data explicit: the leaf becomes the best leaf; the state
+`s1` is given explicitly (first-leaf data, generators, `flOrbits` unchanged) -/
+theorem dfs_leaf_accept_v (lv : List (Nat × Nat)) (s s1 : LS) (gh : Gh) (hI : MInv n m nb s)
     (hlv : LevelsOK s.op s.path s.choices lv) (hleaf : s.op.binDividers.len = n)
     (hJ : CertM n m nb lv false s) (h : DNodev n nb rf r gh lv s) (hs1 : leafNode n m s = .ok s1)
     (hJ1 : CertA n m nb lv s1) (hcnt : 0 < s.count)
     (hcmp : compare s.op.value.toList s.currentBest.toList = 1) :
-    ∃ lv1, LevelsOK s1.op s1.path s1.choices lv1 ∧ DA n nb rf r lv1 s1 := by
+    ∃ lv1, LevelsOK s1.op s1.path s1.choices lv1 ∧
+      DAv n nb rf r { gh with vs := gh.vs.dropLast, vsB := gh.vs, bgs := [] } lv1 s1 ∧
+      ∃ cb bpi : Sl Nat,
+        s1 = { s with count := s.count + 1, currentBest := cb, bestPath := s.bestPath.copyFrom s.path.reverse,
+                      bestPerm := s.bestPerm.copyFrom s.op.order.toList, bestPermInv := bpi,
+                      bestOrbits := Disjoint.new n } ∧
+        cb.toList = s.op.value.toList ∧ (s.bestPerm.copyFrom s.op.order.toList).toList = s.op.order.toList ∧
+        InvOf s.op.order.toList bpi := by
   obtain ⟨hw, hG, hcov, haux, hoff⟩ := h
   obtain ⟨hg, _, hvn, hbok⟩ := hJ
   obtain ⟨hvc, hspl⟩ := leaf_clean hI.core.part hleaf (hvn rfl)
@@ -191,7 +199,7 @@ theorem dfs_leaf_accept (lv : List (Nat × Nat)) (s s1 : LS) (gh : Gh) (hI : MIn
   have hself : compare s.op.value.toList cb.toList ≠ 1 := by rw [hcbT, compare_self]; decide
   have hlast : ∀ L, L < s.path.length → gh.vs.dropLast.take L = gh.vs.take L :=
     fun L hL => take_dropLast gh.vs (by omega)
-  refine ⟨lv, hlv, { gh with vs := gh.vs.dropLast, vsB := gh.vs, bgs := [] }, ?_, ?_, ?_, ?_, ?_⟩
+  refine ⟨lv, hlv, ⟨?_, ?_, ?_, ?_, ?_⟩, cb, bpi, rfl, hcbT, hbpT, hinv⟩
   · -- the walk
     have := walk_truncate
       (s' := { s with count := s.count + 1, currentBest := cb, bestPath := s.bestPath.copyFrom s.path.reverse,
@@ -264,6 +272,17 @@ theorem dfs_leaf_accept (lv : List (Nat × Nat)) (s s1 : LS) (gh : Gh) (hI : MIn
     exact key _ _ rfl rfl rfl (Nat.succ_pos _) hb rfl rfl hself
   · intro hp
     exact absurd hp hne
+
+include hnb hA hD hlenm in
+/-- a leaf better than `currentBest` (not the first) -/
+theorem dfs_leaf_accept (lv : List (Nat × Nat)) (s s1 : LS) (gh : Gh) (hI : MInv n m nb s)
+    (hlv : LevelsOK s.op s.path s.choices lv) (hleaf : s.op.binDividers.len = n)
+    (hJ : CertM n m nb lv false s) (h : DNodev n nb rf r gh lv s) (hs1 : leafNode n m s = .ok s1)
+    (hJ1 : CertA n m nb lv s1) (hcnt : 0 < s.count)
+    (hcmp : compare s.op.value.toList s.currentBest.toList = 1) :
+    ∃ lv1, LevelsOK s1.op s1.path s1.choices lv1 ∧ DA n nb rf r lv1 s1 := by
+  obtain ⟨lv1, hl, hd, _⟩ := dfs_leaf_accept_v hnb hA hD hlenm lv s s1 gh hI hlv hleaf hJ h hs1 hJ1 hcnt hcmp
+  exact ⟨lv1, hl, _, hd⟩
 
 end
 end CanonF
